@@ -339,11 +339,17 @@ func wantsToBeReceived(r *pool.Message) bool {
 }
 
 func (b *BlockWise[C]) getSendingMessageCode(token uint64) (codes.Code, bool) {
-	v := b.sendingMessagesCache.Load(token)
-	if v == nil {
-		return codes.Empty, false
-	}
-	return v.Data().Code(), true
+	code, found := codes.Empty, false
+	now := time.Now()
+	// The message is read while the lock of the cache is held: Do removes its entry when it returns
+	// and from then on the request belongs to the caller again.
+	b.sendingMessagesCache.LoadWithFunc(token, func(v *cache.Element[*pool.Message]) *cache.Element[*pool.Message] {
+		if !v.IsExpired(now) {
+			code, found = v.Data().Code(), true
+		}
+		return v
+	})
+	return code, found
 }
 
 // Handle middleware which constructs COAP request from blockwise transfer and send COAP response via blockwise.
